@@ -451,3 +451,46 @@ def pack_writes_the_documented_format(n: int):
             if [int(x) for x in npa[q]] != old_file_row(order, subs[m], W.width()):
                 bad.append(m)
     assert bad == []
+
+
+# ----------------------------------------------------------------------------- the engine's models against python / numpy
+@lemma(gen={"n": (1, 4)})
+def engine_models_agree_with_python_on_what_the_lemmas_use(n: int):
+    """cross-check of the trusted models added for these lemmas: every assertion is evaluated by the engine's model
+    (symbolic run) and by python / numpy themselves (native run):
+    int.to_bytes / int.from_bytes, iteration over bytes, uint8 arrays (reshape, rows, tobytes), a loop over
+    itertools.count() left by break, int(obj) through __int__, classes made by calling the metaclass"""
+    import itertools
+
+    n = choose(n, 1, 4)
+    for v in (0, 1, 255, 256, 513, 65535, 2 ** 24 + 7):
+        for order in ("little", "big"):
+            try:
+                b = v.to_bytes(n, order)
+                fits = True
+            except OverflowError:
+                fits = False
+            assert fits == (v < 256 ** n), "OverflowError exactly when the value needs more bytes"
+            if fits:
+                assert len(b) == n and int.from_bytes(b, order) == v and int.from_bytes(b, byteorder=order) == v
+                digits = [(v // (256 ** k)) % 256 for k in range(n)]
+                assert list(b) == (digits if order == "little" else digits[::-1]), "iterating bytes yields the base-256 digits"
+                assert [q for q in b] == list(b)
+    a = np.array([1, 2, 3, 250, 0, 255], dtype=np.uint8).reshape((3, 2))
+    assert tuple(a.shape) == (3, 2) and int(a[1][1]) == 250 and a[2].tobytes() == b"\x00\xff" and a.tobytes() == b"\x01\x02\x03\xfa\x00\xff"
+    assert [r.tobytes() for r in a] == [b"\x01\x02", b"\x03\xfa", b"\x00\xff"]
+    assert int.from_bytes(a[1].tobytes(), byteorder="little") == 3 + 250 * 256
+    seen = []
+    for k in itertools.count():
+        if k * k > 50:
+            break
+        seen.append(k)
+    assert seen == list(range(8))
+    W = mk(["P", "Q", "R"])
+    assert type(W) is type(Flag) and isinstance(W.Q, W) and isinstance(W.Q, Flag) and not isinstance(Flags.FUEL, W)
+    assert int(W.R) == 4 and int(W.P | W.R) == 5 and W["Q"] == W.Q and W.__name__ == "W"
+    assert W.fields() == {"P": 1, "Q": 2, "R": 4} and Flag.fields() == {} and Flag.width() == 0 and W._autoAt == 8
+    V = mk(["P"])
+    assert V.fields() == {"P": 1} and W.fields() is not V.fields() and len(W.fields()) == 3, "class state is per class"
+    assert Flags.width() == (len(Flags.fields()) + 7) // 8 and names_on(Flags.FUEL | Flags.CLAD) == ["CLAD", "FUEL"]
+    assert Flags["DUCT"] == Flags.DUCT and int(Flags.PRIMARY) == 1 and int(Flags.SECONDARY) == 2
